@@ -12,6 +12,7 @@ flav = {
  'C04': 'a side effect hidden in a particular syntactic position (getter, computed key, spread, template hole, class static block, default parameter), a particular import/export shape or annotation',
  'C05': 'a lowerable construct in a particular position (receiver, callee, assignment target, computed key, loop head, class heritage) with side-effecting operands, a particular target or supported override',
  'C06': 'a particular placement of type syntax (ambiguous generics/arrows, satisfies/as chains, overloads, abstract members), a particular enum/namespace/parameter-property shape or tsconfig setting',
+ 'C07': 'a particular layout (multi-byte/astral characters, CRLF, long lines), a multi-file bundle, code splitting with final-path substitution, an input source map, a particular token class or option combination',
  'C08': 'a particular interleaving (file arrival order, GOMAXPROCS, concurrent sibling builds), a name collision, many entry points/chunks, or a different absolute project path',
  'C09': 'a multi-step edit history (edit, rebuild, edit again), a particular kind of edit (tsconfig/package.json field, shadowing file, file->directory), or a watch-mode observation',
  'C10': 'a particular overlap pattern of entry-point reachability sets, a dynamic import, a re-export across chunk boundaries, a name collision between chunks',
